@@ -697,4 +697,6 @@ def run(ctx):
     ctx.run_rule('C05.5', 'T8', 'inheritance loops rejected before any consumer of the base closure; guarded search', r_inheritance, prog)
     ctx.run_rule('C05.6', 'T2', 'aliases that contain themselves through anonymous types are rejected before any recursive walk over type expressions', r_alias_through_anonymous, prog)
     ctx.run_rule('C05.7', 'T10', 'fresh search state per root; candidates scan on every path; cycles identified by scoped names', r_search_state_and_identity, prog)
+    from props import c03 as _c03
+    ctx.run_rule('C05.9', 'T10', 'every link of an alias chain is looked up from the module of the alias it is written in: a chain through several modules is not taken for a loop', _c03.r_lookup_scope, prog)
     ctx.run_rule('C05.8', 'T2', 'dead ends: recorded only after a complete search that found nothing; per root', r_dead_ends, prog)
